@@ -124,7 +124,10 @@ def r2_folding(a, tier):
         ('x', set(), False, False), ('x', set(), True, False),
     ]
     for word, table, ic, want in cases:
-        me = Obj(config=Obj(ignorecase=ic), keywords=table)
+        # the table was folded under the ACTIVE configuration; a Text object handed to parse() carries its own settings, which may differ: the
+        # candidate must be folded under the configuration the table was folded under (the input says the opposite here)
+        me = Obj(config=Obj(ignorecase=ic), active_config=Obj(ignorecase=ic), keywords=table, input=Obj(ignorecase=not ic, config=Obj(ignorecase=not ic)),
+                 cursor=Obj(ignorecase=not ic))
 
         def methods(recv, name, args, kwargs):
             if name == 'newexcept':
@@ -329,7 +332,7 @@ def r4_accepted_names_unchanged(a, tier):
             node = Name(text)
             seen: list = []
             action = Hook(lambda *x, **k: 'ACTION-RESULT')
-            me = Stub(ENGINE, config=Obj(ignorecase=ignorecase, parseinfo=False), keywords=keywords, pos=3,
+            me = Stub(ENGINE, config=Obj(ignorecase=ignorecase, parseinfo=False), keywords=keywords, pos=3, input=Obj(ignorecase=not ignorecase),
                       find_semantic_action=Hook(lambda n: action if with_action else None), newexcept=Hook(lambda *x, **k: Stub('tatsu.exceptions.KeywordError')))
             ri = Obj(is_name=True, name='ident', params=(), kwparams={})
             it = ModelInterp(a, {'boundcall': Hook(lambda act, known, *args, **kw: (seen.append(args[0]), 'ACTION-RESULT')[1])})
